@@ -74,8 +74,38 @@ var shadeTy = &Ty{K: "enum", Name: "Shade", Vals: []string{"DARK", "PALE"}}
 
 func nilValued(enum, value string) bool { return enum == "Shade" && value == "PALE" }
 
+// unitTy: an enum whose Go values are JSON-representable and are NOT its names (METER is "m" in the
+// Go program, FOOT 1.5, INCH true, MILE 3.0). A client that sends one of those Go values through a
+// variable is not naming a declared enum value: only the names are accepted (seeded change C05-27).
+// What a resolver receives for METER is the string "m": `(enum METER)` in a model / reference reply
+// is read as the dump of the declared Go value.
+var unitTy = &Ty{K: "enum", Name: "Unit", Vals: []string{"FOOT", "INCH", "METER", "MILE"}}
+
+var unitGo = map[string]interface{}{"METER": "m", "FOOT": 1.5, "INCH": true, "MILE": 3.0}
+
+// declaredGo: the dump of the Go value the schema declares for an enum value, when that is not the
+// harness's `enumVal{name}`.
+func declaredGo(enum, value string) (hx.Sexp, bool) {
+	if nilValued(enum, value) {
+		return hx.A("nil"), true
+	}
+	if enum == "Unit" {
+		if v, ok := unitGo[value]; ok {
+			return dump(v), true
+		}
+	}
+	return hx.Sexp{}, false
+}
+
 func nilEnums(modelReply string) string {
-	return strings.ReplaceAll(modelReply, "(enum PALE)", "nil")
+	s := strings.ReplaceAll(modelReply, "(enum PALE)", "nil")
+	if strings.Contains(s, "(enum ") {
+		for _, n := range unitTy.Vals {
+			d, _ := declaredGo("Unit", n)
+			s = strings.ReplaceAll(s, "(enum "+n+")", d.String())
+		}
+	}
+	return s
 }
 
 var scalarNames = []string{"Int", "Float", "String", "Boolean", "ID", "DateTime", "LongInt"}
